@@ -71,6 +71,8 @@ type backend struct {
 	name  string
 	s     *sd.StreamingDataStore[int]
 	close func() error
+	// txn commits the current transaction and reopens the store in a new one (infs only; nil for mem)
+	txn func() error
 }
 
 func newMem() *backend {
@@ -100,11 +102,27 @@ func newInfs(ctx context.Context) (*backend, error) {
 		os.RemoveAll(dir)
 		return nil, err
 	}
-	return &backend{name: "infs", s: s, close: func() error {
+	b := &backend{name: "infs", s: s}
+	b.close = func() error {
 		err := tr.Commit(ctx)
 		os.RemoveAll(dir)
 		return err
-	}}, nil
+	}
+	b.txn = func() error {
+		if err := tr.Commit(ctx); err != nil {
+			return err
+		}
+		var err error
+		if tr, err = infs.NewTransaction(ctx, to); err != nil {
+			return err
+		}
+		if err = tr.Begin(ctx); err != nil {
+			return err
+		}
+		b.s, err = infs.OpenStreamingDataStore[int](ctx, "sds", tr, nil)
+		return err
+	}
+	return b, nil
 }
 
 // ---- one case ----
@@ -118,6 +136,7 @@ type runner struct {
 	// entry the last operation did not touch (a defect below streamingdata, finding C31-F2, which the
 	// ordered-collection model does not and should not reproduce). Nothing after that point is compared.
 	dead bool
+	il   *ilState // open readers / writers of the case (interleave.go)
 }
 
 func vals2s(vs []val) string {
@@ -648,10 +667,14 @@ func (r *runner) program(p *hx.Prng, thorough bool, nops int) {
 }
 
 func drive(o hx.RunOpts) error {
-	s := hx.NewSession(o, "cases: programs of add / update (fewer, equal, more chunks) / upsert / add-if-absent / remove over 1-4 keys on the real streamingdata store "+
-		"(in-memory B-tree; thorough also infs on a temp directory), each mutating op followed by a dump of the remaining chunk keys, interleaved with decodes through GetCurrentValue's json.Decoder "+
-		"and raw reader.Read calls with generated buffer sizes. distinct = canonical op-line hash; non-trivial = the case decodes an entry with a chunk larger than the decoder's 512-byte buffer, "+
-		"or fills a Read buffer (partial copy), or updates with fewer chunks, or removes one of several entries")
+	s := hx.NewSession(o, "cases: (a) programs of add / update (fewer, equal, more chunks) / upsert / add-if-absent / remove over 1-4 keys on the real streamingdata store "+
+		"(in-memory B-tree; also infs on a temp directory), each mutating op followed by a dump of the remaining chunk keys, interleaved with decodes through GetCurrentValue's json.Decoder "+
+		"and raw reader.Read calls with generated buffer sizes; (b) interleaved histories on the store's single shared cursor: 2-6 open decoders / raw readers over different and the same entries "+
+		"(1-6 chunks, values of 3 B to 80 kB) advanced in lockstep, shuffled round-robin runs or random order; stream copies src->dst on the same store (1 or 2 at once, dst below / above src, new or rewritten); "+
+		"readers mixed with Add / Update / Upsert / AddIfNotExist encoders and removes of other entries; B-tree Find / First / Next on other keys in between; an entry under the zero key; "+
+		"on infs the same inside one transaction and over the committed entries in the following transactions. Per-step oracle: every decoder returns exactly its entry's values in order, then EOF; "+
+		"what the encoders wrote reads back exactly afterwards. distinct = canonical op-line hash; non-trivial = the case decodes an entry with a chunk larger than the decoder's 512-byte buffer, "+
+		"or fills a Read buffer (partial copy), or updates with fewer chunks, or removes one of several entries, or makes a reader step while the shared cursor rests on the previous chunk INDEX of ANOTHER entry")
 	ctx := context.Background()
 	p := hx.NewPrng(o.Seed)
 	runCase := func(b *backend, hdr string, body func(r *runner)) error {
@@ -698,12 +721,106 @@ func drive(o hx.RunOpts) error {
 		return fmt.Errorf("infs commit: %w", err)
 	}
 
+	// directed interleavings on the store's single shared cursor: two decoders in lockstep, stream copies
+	if err := runCase(newMem(), "mem il-corpus", corpusLockstep); err != nil {
+		return err
+	}
+	if b, err := newInfs(ctx); err != nil {
+		return fmt.Errorf("infs backend: %w", err)
+	} else if err := runCase(b, "infs il-corpus", corpusLockstep); err != nil {
+		return fmt.Errorf("infs commit: %w", err)
+	}
+	// the zero-key witness (finding C31-F3, fixed by 7fc80460)
+	if err := runCase(newMem(), "mem il-zerokey-corpus", corpusZeroKey); err != nil {
+		return err
+	}
+
 	n := o.N(350, 2000)
 	for i := 0; i < n; i++ {
 		q := p.Fork()
 		if err := runCase(newMem(), "mem", func(r *runner) { r.program(q, o.Thorough(), 4+q.Intn(10)) }); err != nil {
 			return err
 		}
+	}
+	// generated interleavings (in-memory B-tree): readers only / stream copies / readers + encoders + removes / zero key
+	pool := []int{2, 3, 5, 8, 13, 21, 34}
+	n = o.N(420, 4000)
+	for i := 0; i < n; i++ {
+		q := p.Fork()
+		var hdr string
+		var body func(r *runner)
+		switch x := i % 10; {
+		case x < 4:
+			hdr, body = "mem il-readers", func(r *runner) { r.famReaders(q, pool) }
+		case x < 7:
+			hdr, body = "mem il-copy", func(r *runner) { r.famCopy(q, pool, true) }
+		case x < 9:
+			hdr, body = "mem il-mixed", func(r *runner) { r.famMixed(q, pool, true) }
+		default:
+			hdr, body = "mem il-zerokey", func(r *runner) { r.famZeroKey(q) }
+		}
+		if err := runCase(newMem(), hdr, body); err != nil {
+			return err
+		}
+		s.Hit("il_case_" + strings.TrimPrefix(hdr, "mem il-"))
+	}
+	// the same on infs: interleavings inside one transaction, then the committed entries read by interleaved
+	// readers (and copied) in the NEXT transaction, then once more after that one is committed. Add-mode encoders
+	// only (rewrites inside one infs transaction run into open finding C31-F2).
+	n = o.N(8, 120)
+	for i := 0; i < n; i++ {
+		q := p.Fork()
+		b, err := newInfs(ctx)
+		if err != nil {
+			return fmt.Errorf("infs backend: %w", err)
+		}
+		var terr error
+		if err := runCase(b, "infs il-txns", func(r *runner) {
+			st := r.newIL()
+			phase := func() {
+				switch q.Intn(3) {
+				case 0:
+					r.famReaders(q, pool)
+				case 1:
+					r.famCopy(q, pool, false)
+				default:
+					r.famMixed(q, pool, false)
+				}
+			}
+			phase()
+			for t := 0; t < 2 && terr == nil && !r.dead; t++ {
+				if terr = r.txn(st); terr != nil {
+					return
+				}
+				// the entries committed so far, read by interleaved readers in the new transaction, plus new work
+				st2 := r.newIL()
+				for _, k := range r.refKeys() {
+					if q.Chance(2, 3) {
+						r.openReader(st2, k, q.Chance(1, 3))
+					}
+				}
+				r.schedule(q, st2, q.Intn(3), func() {
+					if q.Chance(1, 5) {
+						r.disturb(q, true)
+					}
+				})
+				if t == 0 {
+					for _, k := range r.refKeys() {
+						if len(r.ref) > 3 {
+							r.remove(k)
+						}
+					}
+					phase()
+				}
+			}
+			r.finalReadBack(r.refKeys())
+		}); err != nil {
+			return fmt.Errorf("infs commit: %w", err)
+		}
+		if terr != nil {
+			return fmt.Errorf("infs txn boundary: %w", terr)
+		}
+		s.Hit("il_case_infs_txns")
 	}
 	// infs-backed store (one writing transaction per case, committed at the end)
 	n = o.N(6, 80)
